@@ -415,3 +415,9 @@ Proof.
   eapply consumes_bind; [apply r_span_consumes, C| |sticky_tac].
   apply (consumes_bind_ret r_len16 (fun x => mkCancel c s x)). apply r_len16_consumes, E.
 Qed.
+
+Lemma r_u8_byte' b rest : 0 <= b < 256 -> r_u8 (rb (b :: rest)) = (b, rb rest).
+Proof.
+  intros H. destruct (r_u8_consumes b) as [C _]; [|apply (C rest)].
+  unfold u_ok. change (256 ^ Z.of_nat 1) with 256. exact H.
+Qed.
